@@ -57,6 +57,7 @@ type Ctx struct {
 	Cov     map[string]any
 	samples []any
 	Deadline time.Time // internal deadline: never fails a check, ends with exhaustive:false
+	Parallel    int           // worker goroutines of ParallelEnum (0 = NumCPU); whole-system runs mostly wait, so they use more
 	CaseTimeout time.Duration // watchdog per case (0 = none): a case running longer is a violation 'hang' (C14, C17)
 	capped  bool
 }
@@ -386,6 +387,9 @@ type Stats struct {
 
 func ParallelEnum[C any](c *Ctx, gen func(emit func(C) bool), eval func(C) (fail *Fail, nontrivial bool)) Stats {
 	workers := runtime.NumCPU()
+	if c.Parallel > 0 {
+		workers = c.Parallel
+	}
 	type item struct {
 		ord int64
 		cs  []C
@@ -470,7 +474,10 @@ func ParallelEnum[C any](c *Ctx, gen func(emit func(C) bool), eval func(C) (fail
 			}
 		}()
 	}
-	const batch = 256
+	batch := 256
+	if c.Parallel > 0 {
+		batch = 1
+	}
 	var cur []C
 	var ord int64
 	n := 0
